@@ -70,7 +70,8 @@ PRECONDITIONS ENCODED BY CONSTRUCTION (so that a refusal of run_world is the lib
   P10 hash-lock preimages are 32 bytes (BIP379) and are filed in the psbt input before signing.
   P11 v2 psbts need a non-empty output script; amounts: sum(outputs) <= sum(inputs) <= MAX_MONEY.
   P12 a descriptor index is 0 <= index < 2**31 and every descriptor is ranged.
-  P13 bare multisig keeps n <= 3, p2sh redeem scripts stay far below 520 bytes, multi_a n <= 4.
+  P13 bare multisig keeps n <= 3, p2sh redeem scripts stay far below 520 bytes, multi_a n <= 4 or one of 11, 12, 15, 16, 20
+      (wide ones with k <= 3 signer keys, the rest external).
 
 DETERMINISM: btclib draws BIP340 aux data (and blinding) from `secrets`; run_world calls the
 harness's vlib.determinism.reset(case) first, so that the same case gives the same bytes.
@@ -313,10 +314,12 @@ def _taproot_input(draw, kind, owners, lock_time):
                 if i != spend_leaf:
                     leaf_texts.append(f"pk({new_key(draw(free))})")
                 elif kind == "tr_multi_a":
-                    n = draw(st.integers(1, 4))
-                    k = draw(st.integers(1, n))
+                    # mostly small; sometimes wide, so that a k-of-n spend runs many CHECKSIGADDs on empty signatures
+                    # (BIP342 charges the sigops budget for non-empty signatures only)
+                    n = draw(st.one_of(st.integers(1, 4), st.integers(1, 4), st.sampled_from([11, 12, 15, 16, 20])))
+                    k = draw(st.integers(1, min(n, 3)))
                     must = draw(st.permutations(list(range(n))))[:k]
-                    names = [new_key(draw(own) if j in must else draw(free)) for j in range(n)]
+                    names = [new_key(draw(own) if j in must else (draw(free) if n <= 4 else None)) for j in range(n)]
                     sort = draw(st.booleans())
                     fn = "sortedmulti_a" if sort else "multi_a"
                     leaf_texts.append(f"{fn}({k},{','.join(names)})")
